@@ -6,7 +6,7 @@ ASSUMPTIONS = ['the ESmry object is laid out by the harness; std::fstream family
 TUS = ['opm/io/eclipse/EclOutput.cpp', 'opm/io/eclipse/EclUtil.cpp', 'opm/io/eclipse/ESmry.cpp']
 def jobs(tier):
     out = []
-    for n in ((1001, 2500) if tier == 'quick' else (1, 2, 1000, 1001, 2500, 4001)):
+    for n in ((1001, 2500, 4001) if tier == 'quick' else (1, 2, 1000, 1001, 2500, 4001, 4500)):
         out.append(dict(name='binary_n%d' % n, src='h_esmry.cpp', defs={'NVECT': n}, entry='h_binary', tus=TUS, fp='ieee', loopmax=100000, maxsteps=400000000, bounds='%d vectors, unformatted' % n))
         out.append(dict(name='formatted_n%d' % n, src='h_esmry.cpp', defs={'NVECT': n}, entry='h_formatted', tus=TUS, fp='ieee', loopmax=1000000, maxsteps=800000000, timeout=1500, bounds='%d vectors, formatted' % n))
     return out
